@@ -13,8 +13,9 @@ sbin TY FMT EXP INTHEX FRACHEX|-    slow_binary::<TY, FMT>
 fp  TY FMT MANT EXP MANY [NEG]      Number::try_fast_path::<TY, FMT>   -> `some <bits>` | `none`
 ```
 An `ExtendedFloat80` is rendered `ok <bits> <mant> <exp>` (valid, `exp ≥ 0`; bits = `extended_to_float`) / `inv <mant> <exp>` (invalid marker).
-`spec` is the contract: a **valid** non-lossy result is the correctly rounded float (`roundNE`), an invalid
-one is unconstrained here (the bracketing property is a theorem, `Props/C01.lean`).
+`spec` is the contract: a **valid** non-lossy result is the correctly rounded float (`roundNE`) of
+`mantissa·base^exponent` — also when `many_digits` is set (the truncated digits may all be zero, so a valid
+answer must in particular be right for the mantissa itself); an invalid one is unconstrained here.
 -/
 namespace LexVerif.Model.Ops.ParseAlgos
 open LexVerif LexVerif.Spec LexVerif.Model
@@ -74,12 +75,15 @@ def spec (_feats : Features) (t : List String) : Option String :=
   match t with
   | ["cf", ty, q, w, "0"] =>
     specGuard q fun _ => (FTy.ofName ty).map fun F => let x := powFrac 10 (intD q) (natD w); contract F x.1 x.2
-  | ["lm", ty, m, e, "0", "0"] =>
+  | ["lm", ty, m, e, many, "0"] =>
+    -- `many_digits` with a mantissa of 0 or ≥ 10^19 cannot come out of `parse_number` (≤ 19 digits are
+    -- accumulated): there the wrapper may even panic (`compute_error` with an exponent beyond the table)
+    if many = "1" ∧ (natD m = 0 ∨ natD m ≥ 10 ^ 19) then none else
     specGuard e fun _ => (FTy.ofName ty).map fun F => let x := powFrac 10 (intD e) (natD m); contract F x.1 x.2
-  | ["bel", ty, f, m, e, "0", "0"] =>
+  | ["bel", ty, f, m, e, _many, "0"] =>
     specGuard e fun _ => (FTy.ofName ty).map fun F =>
       let x := powFrac (fmtOf f).mantissaRadix (intD e) (natD m); contract F x.1 x.2 ++ " || panic"
-  | ["bin", ty, f, m, e, "0", "0"] =>
+  | ["bin", ty, f, m, e, _many, "0"] =>
     specGuard e fun _ => (FTy.ofName ty).map fun F =>
       let fmt := fmtOf f
       let x := powFrac fmt.exponentBase (intD e) (natD m); contract F x.1 x.2
